@@ -204,7 +204,10 @@ def bits_of(v):
         ft = np.float32 if v.dtype == np.complex64 else np.float64
         return ("c",) + tuple(bits_of(ft(p)) for p in (v.real, v.imag))
     if isinstance(v, (int, np.integer)):
-        return ("f", struct.pack("<d", float(v)))  # python target: ints compare by value with floats
+        try:
+            return ("f", struct.pack("<d", float(v)))  # python target: ints compare by value with floats
+        except OverflowError:
+            return ("i", int(v))  # math.floor(1.7e308) * 2: a Python int beyond the float range
     if isinstance(v, float):
         return ("nan",) if math.isnan(v) else ("f", struct.pack("<d", v))
     if isinstance(v, complex):
